@@ -207,6 +207,68 @@ func longParseInputs(fam string, quickTier bool) []parseExport {
 			}
 		}
 	}
+	if fam == "commit" || fam == "tag" {
+		// two multi-line headers with single-line headers before, between and after them: every tree / parent (object /
+		// type) line that is a header of the object counts, whatever stands between continuation runs
+		block := func(key string) []string {
+			return []string{key, "SP", "begin", "LF", "SP", "parent", "SP", hexTok(0xdd)[0], "LF", "SP", "LF", "SP", "end", "LF"}
+		}
+		for pos := 0; pos <= 3; pos++ {
+			x := parseExport{Kind: fam}
+			var b []string
+			add := func(toks ...string) { b = append(b, toks...) }
+			if fam == "commit" {
+				add("tree", "SP", hexTok(0xaa)[0], "LF")
+				x.Expect.Tree = hexTok(0xaa)
+				x.Expect.Parents = [][]string{hexTok(0xb0 + byte(pos))}
+				par := []string{"parent", "SP", hexTok(0xb0 + byte(pos))[0], "LF"}
+				if pos == 0 {
+					add(par...)
+				}
+				add("author", "SP", "A", "LF", "committer", "SP", "C", "LF")
+				if pos == 1 {
+					add(par...)
+				}
+				add(block("mergetag")...)
+				if pos == 2 {
+					add(par...)
+				}
+				add(block("gpgsig")...)
+				if pos == 3 {
+					add(par...)
+				}
+				add("LF", "parent", "SP", hexTok(0xee)[0], "LF")
+			} else {
+				obj := []string{"object", "SP", hexTok(0xaa)[0], "LF"}
+				typ := []string{"type", "SP", "commit", "LF"}
+				x.Expect.Object = hexTok(0xaa)
+				x.Expect.Type = []string{"commit"}
+				if pos == 0 {
+					add(obj...)
+					add(typ...)
+				}
+				add("tag", "SP", "v1", "LF")
+				if pos == 1 {
+					add(obj...)
+					add(typ...)
+				}
+				add(block("x-sig-a")...)
+				if pos == 2 {
+					add(obj...)
+					add(typ...)
+				}
+				add(block("x-sig-b")...)
+				if pos == 3 {
+					add(obj...)
+					add(typ...)
+				}
+				add("LF", "object", "SP", hexTok(0xee)[0], "LF")
+			}
+			x.Bytes = b
+			x.Expect.OK = &yes
+			out = append(out, x)
+		}
+	}
 	for _, n := range sizes {
 		long := strings.Repeat("n", n)
 		switch fam {
